@@ -5,7 +5,6 @@ import (
 	"fmt"
 	"strconv"
 	"strings"
-	"time"
 
 	crypto "github.com/onflow/crypto"
 
@@ -128,7 +127,14 @@ func newDKGUnit(p dkgsys.Protocol, role string, me, dealer, other, depth int, ru
 		return cat([]byte{byte(j)}, shareFor(j))
 	}
 	var msgs []namedMsg
-	addm := func(name string, data []byte) { msgs = append(msgs, namedMsg{name, data}) }
+	addm := func(name string, data []byte) {
+		for _, m := range msgs {
+			if string(m.data) == string(data) { // same bytes under two role names (e.g. self = dealer): keep the first
+				return
+			}
+		}
+		msgs = append(msgs, namedMsg{name, data})
+	}
 	addm("empty", []byte{})
 	// tag 0: private share, right size 32
 	addm("tag0:empty", []byte{0})
@@ -187,7 +193,7 @@ func newDKGUnit(p dkgsys.Protocol, role string, me, dealer, other, depth int, ru
 	for _, pv := range []struct {
 		name string
 		v    int
-	}{{"-1", -1}, {"0", 0}, {"dealer", dealer}, {"other", other}, {"self", me}, {"n-1", n - 1}, {"n", n}, {"255", 255}, {"256", 256}, {"-2^63", minI64}} {
+	}{{"-1", -1}, {"0", 0}, {"dealer", dealer}, {"other", other}, {"self", me}, {"n-1", n - 1}, {"n", n}, {"255", 255}, {"256", 256}} {
 		if seenP[pv.v] {
 			continue
 		}
@@ -201,7 +207,7 @@ func newDKGUnit(p dkgsys.Protocol, role string, me, dealer, other, depth int, ru
 	}
 	orgs := []org{{"dealer", dealer}, {"other", other}, {"self", me}, {"-1", -1}, {"n", n}}
 	if dealer == me {
-		orgs = []org{{"self(dealer)", me}, {"other", other}, {"other2", 3 - me - other}, {"-1", -1}, {"n", n}}
+		orgs = []org{{"self(dealer)", me}, {"other", other}, {"-1", -1}, {"n", n}}
 	}
 	for _, h := range []string{"HandleBroadcastMsg", "HandlePrivateMsg"} {
 		for _, o := range orgs {
@@ -313,6 +319,22 @@ func (u *dkgUnit) minimisePath(p []int, same func(pan string, last error) bool) 
 			}
 		}
 	}
+	// canonical representative: every call of the prefix is replaced by the first call of the
+	// same function (table order) that preserves the failure, so equivalent prefixes share a key
+	for i := 0; i < len(cur)-1; i++ {
+		for cand := 0; cand < cur[i]; cand++ {
+			if u.Actions[cand].Fn != u.Actions[cur[i]].Fn {
+				continue
+			}
+			try := append([]int{}, cur...)
+			try[i] = cand
+			pan, last, err := u.replayPath(try)
+			if err == nil && same(pan, last) {
+				cur = try
+				break
+			}
+		}
+	}
 	return cur
 }
 
@@ -335,126 +357,132 @@ type dkgFinding struct {
 	Hex   []string `json:"args_hex"`
 }
 
-type dkgStats struct {
-	States, Transitions int64
-	Outcomes            map[string]int64
-	PerFn               map[string]int64
-	Distinct            []string
-	Capped              bool
-	PerDepth            []int64
+// chunkStats is what a worker measured while expanding some states of one unit.
+type chunkStats struct {
+	Transitions int64            `json:"t"`
+	Changed     int64            `json:"c"`
+	Outcomes    map[string]int64 `json:"o"`
+	PerFn       map[string]int64 `json:"f"`
+	Distinct    []string         `json:"d,omitempty"` // new (call, outcome) pairs
 }
 
-// explore runs the BFS. announce(id) is called before every library call that could kill the
-// process; skip lists transitions that killed an earlier worker.
-func (u *dkgUnit) explore(skip map[string]bool, deadline time.Time, announce func(id string), report func(f dkgFinding)) (*dkgStats, error) {
-	st := &dkgStats{Outcomes: map[string]int64{}, PerFn: map[string]int64{}}
-	root, err := u.root()
+// dkgWorkerState is kept by a worker across the chunks of one unit.
+type dkgWorkerState struct {
+	known    map[string][][]int // (action, failure signature) -> minimised paths already reported
+	distinct map[string]bool
+}
+
+func newDKGWorkerState() *dkgWorkerState {
+	return &dkgWorkerState{known: map[string][][]int{}, distinct: map[string]bool{}}
+}
+
+// rebuild replays a path on a fresh real instance (the state of the explored object).
+func (u *dkgUnit) rebuild(p []int) (*dkgsys.Node, error) {
+	nd, err := u.root()
 	if err != nil {
 		return nil, err
 	}
-	type node struct {
-		nd   *dkgsys.Node
-		path []int
+	for i, a := range p {
+		pn := dkgsys.Safe(func() { _ = u.Actions[a].run(nd.Inst) })
+		if pn != "" {
+			return nil, fmt.Errorf("replaying %v: step %d panicked: %s", p, i, pn)
+		}
 	}
-	seen := map[[32]byte]bool{root.InstHash(): true}
-	frontier := []node{{root, nil}}
-	st.States = 1
-	known := map[string][][]int{} // (action, failure signature) -> minimised paths already reported
-	distinct := map[string]bool{}
-	for d := 0; d < u.Depth && len(frontier) > 0; d++ {
-		var next []node
-		var trans int64
-		for _, s := range frontier {
-			if time.Now().After(deadline) {
-				st.Capped = true
-				break
+	nd.Rec.Out, nd.Rec.Disq, nd.Rec.Flag, nd.Rec.Logs = nil, nil, nil, nil
+	return nd, nil
+}
+
+// expand executes every action of the alphabet on the state reached by path. announce is
+// called before each library call (crash attribution); emit is called for every transition
+// that changed the state of the real object.
+func (u *dkgUnit) expand(ws *dkgWorkerState, path []int, skip map[string]bool, st *chunkStats,
+	announce func(ai int), emit func(hash [32]byte, ai int), report func(f dkgFinding)) error {
+	S, err := u.rebuild(path)
+	if err != nil {
+		return err
+	}
+	hS := S.InstHash()
+	emit(hS, -1) // the state itself (so that the parent never re-expands it)
+	W := S.Clone()
+	local := map[[32]byte]bool{}
+	for ai := range u.Actions {
+		a := &u.Actions[ai]
+		full := append(append(make([]int, 0, len(path)+1), path...), ai)
+		if len(skip) > 0 && skip[u.Name+"/"+pathString(full)] {
+			continue
+		}
+		announce(ai)
+		W.Rec.Out, W.Rec.Disq, W.Rec.Flag, W.Rec.Logs = nil, nil, nil, nil
+		var e error
+		pan := dkgsys.Safe(func() {
+			e = a.run(W.Inst)
+			_ = W.Inst.Running()
+			_ = W.Inst.Size() + W.Inst.Threshold()
+		})
+		st.Transitions++
+		st.PerFn[a.Fn]++
+		outcome := "ok"
+		kind, sig := "", ""
+		switch {
+		case pan != "":
+			outcome, kind, sig = "panic", "panic", normPanic(pan)
+		case e != nil:
+			ec := errClass(e)
+			outcome = "err:" + ec
+			if ec == "untyped" {
+				kind, sig = "untyped-error", "untyped"
 			}
-			for ai := range u.Actions {
-				a := &u.Actions[ai]
-				path := append(append(make([]int, 0, len(s.path)+1), s.path...), ai)
-				id := u.Name + "/" + pathString(path)
-				if skip[id] {
-					continue
+		}
+		st.Outcomes[a.Fn+":"+outcome]++
+		if dk := a.Label() + "|" + outcome; !ws.distinct[dk] {
+			ws.distinct[dk] = true
+			st.Distinct = append(st.Distinct, dk)
+		}
+		if kind != "" {
+			ck := strconv.Itoa(ai) + "|" + kind + "|" + sig
+			dup := false
+			for _, k := range ws.known[ck] {
+				if isSubsequence(k, full) {
+					dup = true
+					break
 				}
-				announce(id)
-				c := s.nd.Clone()
-				var e error
-				pan := dkgsys.Safe(func() {
-					e = a.run(c.Inst)
-					_ = c.Inst.Running()
-					_ = c.Inst.Size() + c.Inst.Threshold()
+			}
+			if !dup {
+				min := u.minimisePath(full, func(p2 string, l2 error) bool {
+					if kind == "panic" {
+						return p2 != "" && normPanic(p2) == sig
+					}
+					return p2 == "" && l2 != nil && errClass(l2) == "untyped"
 				})
-				trans++
-				st.PerFn[a.Fn]++
-				outcome := "ok"
-				kind, sig := "", ""
-				switch {
-				case pan != "":
-					outcome, kind, sig = "panic", "panic", normPanic(pan)
-				case e != nil:
-					ec := errClass(e)
-					outcome = "err:" + ec
-					if ec == "untyped" {
-						kind, sig = "untyped-error", "untyped"
-					}
+				ws.known[ck] = append(ws.known[ck], min)
+				lab := u.labels(min)
+				key := fmt.Sprintf("%s:%s.%s", kind, strings.TrimPrefix(u.Name, "dkg:"), lab[len(lab)-1])
+				if len(lab) > 1 {
+					key += ":after:" + strings.Join(lab[:len(lab)-1], ";")
 				}
-				st.Outcomes[a.Fn+":"+outcome]++
-				if d == 0 || outcome != "ok" {
-					distinct[a.Label()+"|"+outcome] = true
+				what := "Go panic: " + pan
+				if kind != "panic" {
+					what = fmt.Sprintf("error %q satisfies none of the documented error predicates", e.Error())
 				}
-				if kind != "" {
-					ck := strconv.Itoa(ai) + "|" + kind + "|" + sig
-					dup := false
-					for _, k := range known[ck] {
-						if isSubsequence(k, path) {
-							dup = true
-							break
-						}
-					}
-					if !dup {
-						min := u.minimisePath(path, func(p2 string, l2 error) bool {
-							if kind == "panic" {
-								return p2 != "" && normPanic(p2) == sig
-							}
-							return p2 == "" && l2 != nil && errClass(l2) == "untyped"
-						})
-						known[ck] = append(known[ck], min)
-						lab := u.labels(min)
-						key := fmt.Sprintf("%s:%s.%s", kind, strings.TrimPrefix(u.Name, "dkg:"), lab[len(lab)-1])
-						if len(lab) > 1 {
-							key += ":after:" + strings.Join(lab[:len(lab)-1], ";")
-						}
-						what := "Go panic: " + pan
-						if kind != "panic" {
-							what = fmt.Sprintf("error %q satisfies none of the documented error predicates", e.Error())
-						}
-						var hx []string
-						for _, x := range min {
-							hx = append(hx, u.Actions[x].Hex)
-						}
-						report(dkgFinding{Kind: kind, Key: strings.ReplaceAll(key, " ", ""), What: what, Path: min, Calls: lab, Hex: hx})
-					}
+				var hx []string
+				for _, x := range min {
+					hx = append(hx, u.Actions[x].Hex)
 				}
-				if pan != "" {
-					continue
-				}
-				h := c.InstHash()
-				if !seen[h] {
-					seen[h] = true
-					st.States++
-					next = append(next, node{c, path})
-				}
+				report(dkgFinding{Kind: kind, Key: strings.ReplaceAll(key, " ", ""), What: what, Path: min, Calls: lab, Hex: hx})
 			}
 		}
-		st.PerDepth = append(st.PerDepth, trans)
-		st.Transitions += trans
-		frontier = next
-		if st.Capped {
-			break
+		if pan != "" {
+			W = S.Clone() // the call may have stopped half way
+			continue
+		}
+		if h := W.InstHash(); h != hS {
+			st.Changed++
+			if !local[h] {
+				local[h] = true
+				emit(h, ai)
+			}
+			W = S.Clone()
 		}
 	}
-	for k := range distinct {
-		st.Distinct = append(st.Distinct, k)
-	}
-	return st, nil
+	return nil
 }
